@@ -38,7 +38,21 @@ func runAbort(rep *Report) {
 				if s.F == nil {
 					break
 				}
+				bound := false
+				if i%3 == 1 && k%3 == 1 {
+					// aborts on a file whose data area reaches past the limit
+					s.GrowTail(r)
+					if bound = s.SessionBound(r); !bound {
+						s.ResizeProbe(r)
+					}
+					if s.F == nil {
+						break
+					}
+				}
 				how := []string{"rollback", "rollback", "close", "fault-commit"}[r.Intn(4)]
+				if bound && r.Chance(60) {
+					how = "fault-commit"
+				}
 				s.AbortProbe(r, p, how)
 			}
 		}
